@@ -1,7 +1,7 @@
 (* C19 correspondence: a map request + load_intermediate flag, the model's observation of the two xarray
    datasets, and the executable statement of the property.
    Observation (both sides):
-     ok [ valid? ; identical? ; same? ; vars ; coords ; sels ]   |   err class
+     ok [ [valid?; known-finding region?] ; identical? ; same? ; vars ; coords ; sels ]   |   err class
      vars   = [[name; dims; value] ...]        data variables, sorted by name
      coords = [[name; dims; value] ...]        coordinates, sorted by name (a zipped coordinate's values
                                                are the tuples "[a,b]" of its sources' values)
@@ -9,11 +9,36 @@
                                                coordinate value, did `ds[var].sel({coord: value})` return
                                                the slice at that value's position, or "err:<class>"
    kind 0 ("label"): everything, `sels` for single-source coordinates;
-   kind 1 ("zsel") : only `sels`, for zipped (multi-source) coordinates. *)
+   kind 1 ("zsel") : only `sels`, for zipped (multi-source) coordinates.
+
+   A case is either an explicit request (c_order = []: every MapSpec written out) or a USER-LEVEL list
+   (c_order = the order in which the functions are handed to Pipeline([...]); producers of arrays may
+   have no MapSpec): `resolve` constructs the pipeline with Model/AutoGen.construct and everything
+   below works on the resolved request `req` (the effective function list, in c_funcs' topological order). *)
 From Verif Require Export Base.Prelude Base.StrUtil Base.Index Base.NdArr Model.MapSpec Model.MapSpecSpec
   Model.MapRun Model.MapDenote Model.SymBody Model.XrLabel Model.XrLabelSpec.
+From Verif Require Model.AutoGen.
 
-Record case := { c_funcs : list mfunc; c_inputs : env; c_internal : shape_dict; c_li : bool; c_kind : nat }.
+Record case := { c_funcs : list mfunc; c_inputs : env; c_internal : shape_dict; c_li : bool; c_kind : nat;
+                 c_order : list nat }.
+
+(* a resolved request: the effective function list *)
+Record req := { q_funcs : list mfunc; q_inputs : env; q_internal : shape_dict; q_li : bool; q_kind : nat }.
+
+Definition permuted (fs : list mfunc) (order : list nat) : list mfunc :=
+  flat_map (fun i => match nth_error fs i with Some f => [f] | None => [] end) order.
+(* the functions of `fs` (run order) with the MapSpecs that `effp` (construction order) carries, by name *)
+Definition respec (fs effp : list mfunc) : list mfunc :=
+  map (fun f => match find (fun g => str_eqb (fname g) (fname f)) effp with
+                | Some g => AutoGen.set_spec f (fspec g)
+                | None => f end) fs.
+
+Definition resolve (c : case) : result req :=
+  do fs <- match c_order c with
+           | [] => Ok (c_funcs c)
+           | order => do effp <- AutoGen.construct (permuted (c_funcs c) order); Ok (respec (c_funcs c) effp)
+           end;
+  Ok {| q_funcs := fs; q_inputs := c_inputs c; q_internal := c_internal c; q_li := c_li c; q_kind := c_kind c |}.
 
 Definition sx_val (v : val) : sx :=
   match v with
@@ -21,10 +46,40 @@ Definition sx_val (v : val) : sx :=
   | VA a => SL [SS (s "arr"); SL (map SN (shp a)); SL (map SS (dat a))]
   end.
 
-Definition specs_of (c : case) : list mapspec :=
-  flat_map (fun f => match fspec f with Some m => [m] | None => [] end) (c_funcs c).
-Definition input_names (c : case) : list str := map fst (c_inputs c).
-Definition output_names (c : case) : list str := sort_str (flat_map fouts (c_funcs c)).   (* sorted(results.keys()) *)
+Definition specs_of (q : req) : list mapspec :=
+  flat_map (fun f => match fspec f with Some m => [m] | None => [] end) (q_funcs q).
+Definition input_names (q : req) : list str := map fst (q_inputs q).
+Definition all_outputs (q : req) : list str := flat_map fouts (q_funcs q).
+Definition output_names (q : req) : list str := sort_str (all_outputs q).   (* sorted(results.keys()) *)
+
+(* ---------- typed observation and its rendering ---------- *)
+Definition entry := (str * (list str * sx))%type.          (* name, dims, value *)
+Definition selent := (str * str * list sx)%type.           (* variable, coordinate, outcomes *)
+Record dsobs := { o_same : bool; o_vars : list entry; o_coords : list entry; o_sels : list selent }.
+
+Definition render_entry (e : entry) : sx := SL [SS (fst e); SL (map SS (fst (snd e))); snd (snd e)].
+Definition render_sel (e : selent) : sx := SL [SS (fst (fst e)); SS (snd (fst e)); SL (snd e)].
+Definition render (v : sx) (d : dsobs) : sx :=
+  SL [SS (s "ok"); v; SB (o_same d); SB (o_same d);
+      SL (map render_entry (o_vars d)); SL (map render_entry (o_coords d)); SL (map render_sel (o_sels d))].
+
+Fixpoint omapM {A B} (f : A -> option B) (l : list A) : option (list B) :=
+  match l with
+  | [] => Some []
+  | x :: t => match f x, omapM f t with Some y, Some ys => Some (y :: ys) | _, _ => None end
+  end.
+Definition sx_str (x : sx) : option str := match x with SS t => Some t | _ => None end.
+Definition sx_strs (x : sx) : option (list str) := match x with SL l => omapM sx_str l | _ => None end.
+Definition parse_entry (x : sx) : option entry :=
+  match x with
+  | SL [SS n; d; v] => option_map (fun ds => (n, (ds, v))) (sx_strs d)
+  | _ => None
+  end.
+Definition parse_sel (x : sx) : option selent :=
+  match x with
+  | SL [SS v; SS cn; SL l] => Some (v, cn, l)
+  | _ => None
+  end.
 
 (* ---------- values shown by the datasets ---------- *)
 Definition tuple_str (l : list str) : str := s "[" ++ join (s ",") l ++ s "]".
@@ -43,18 +98,18 @@ Definition coord_value (arrs : list val) : result sx :=
               SL (map (fun m => SS (tuple_str (map (fun col => nth m col []) cols))) (seq 0 n))])
   end.
 
-Definition source_value (c : case) (outv : str -> option val) (n : str) : result val :=
-  match dict_get (c_inputs c) n with
+Definition source_value (q : req) (outv : str -> option val) (n : str) : result val :=
+  match dict_get (q_inputs q) n with
   | Some v => Ok v
   | None => match outv n with Some v => Ok v | None => Err KeyError end
   end.
 
-Definition render_coord (c : case) (outv : str -> option val) (co : coord) : result sx :=
-  do arrs <- mapM (source_value c outv) (co_srcs co);
+Definition render_coord (q : req) (outv : str -> option val) (co : coord) : result entry :=
+  do arrs <- mapM (source_value q outv) (co_srcs co);
   do v <- coord_value arrs;
-  Ok (SL [SS (co_name co); SL (map SS (co_axes co)); v]).
+  Ok (co_name co, (co_axes co, v)).
 
-(* sort entries [name; ...] by name *)
+(* sort entries by name *)
 Definition sort_by_name {A} (name : A -> str) (l : list A) : list A :=
   flat_map (fun n => filter (fun x => str_eqb (name x) n) l) (dedup_first (sort_str (map name l))).
 
@@ -68,8 +123,8 @@ Definition sel_outcomes (co : coord) (labels : list str) : list sx :=
   | _ => repeat (SS (s "err:AssertionError")) (length labels)
   end.
 
-Definition labels_of (c : case) (outv : str -> option val) (co : coord) : result (list str) :=
-  do arrs <- mapM (source_value c outv) (co_srcs co);
+Definition labels_of (q : req) (outv : str -> option val) (co : coord) : result (list str) :=
+  do arrs <- mapM (source_value q outv) (co_srcs co);
   match arrs with
   | VA a :: _ => Ok (dat a)
   | _ => Err TypeError
@@ -77,28 +132,72 @@ Definition labels_of (c : case) (outv : str -> option val) (co : coord) : result
 
 Definition subset_str (a b : list str) : bool := forallb (fun x => mem_str x b) a.
 
-Definition render_sels (c : case) (outv : str -> option val) (vars : list (str * list str)) (cs : list coord)
-  : result (list sx) :=
-  let wanted co := match co_axes co with
-                   | [k] => if c_kind c =? 0 then length (co_srcs co) =? 1 else 1 <? length (co_srcs co)
-                   | _ => false end in
+Definition sel_wanted (kind : nat) (co : coord) : bool :=
+  match co_axes co with
+  | [_] => if kind =? 0 then length (co_srcs co) =? 1 else 1 <? length (co_srcs co)
+  | _ => false
+  end.
+
+Definition render_sels (q : req) (outv : str -> option val) (vars : list (str * list str)) (cs : list coord)
+  : result (list selent) :=
   do l <- mapM (fun v =>
-          mapM (fun co => do lab <- labels_of c outv co;
-                          Ok (SL [SS (fst v); SS (co_name co); SL (sel_outcomes co lab)]))
-               (filter (fun co => wanted co && subset_str (co_axes co) (snd v)) (sort_by_name co_name cs)))
+          mapM (fun co => do lab <- labels_of q outv co;
+                          Ok (fst v, co_name co, sel_outcomes co lab))
+               (filter (fun co => sel_wanted (q_kind q) co && subset_str (co_axes co) (snd v))
+                       (sort_by_name co_name cs)))
        (sort_by_name fst vars);
   Ok (concat l).
 
-(* ---------- validity of a case (the domain the property quantifies over) ---------- *)
-(* a valid map request of C01 (well-formed, denotation defined), whose MapSpecs name the dimensions of
-   every array consistently (validate_consistent_axes: enforced by Pipeline construction), with distinct
-   values in every input array *)
+(* ---------- validity of a request (the domain the property quantifies over) ---------- *)
+Definition value_in (q : req) (den : den_state) (n : str) : option val :=
+  match dict_get (q_inputs q) n with
+  | Some v => Some v
+  | None => dict_get (d_out den) n
+  end.
+
+(* (axis name, size) for every named position of every array occurrence in the MapSpecs *)
+Definition axis_sizes (q : req) (den : den_state) : list (str * nat) :=
+  flat_map (fun a => match value_in q den (aname a) with
+                     | Some (VA arr) => flat_map (fun xd => match fst xd with Some x => [(x, snd xd)] | None => [] end)
+                                                 (combine (axes a) (shp arr))
+                     | _ => [] end) (all_aspecs (specs_of q)).
+Definition sizes_conflict (l : list (str * nat)) : bool :=
+  existsb (fun p => existsb (fun r => str_eqb (fst p) (fst r) && negb (snd p =? snd r)) l) l.
+
+(* Besides C01's validity (request_ok, defined denotation) and the property's "distinct values", `valid`
+   spells out facts that a constructed Pipeline and a defined denotation imply (kept as executable clauses
+   so that every generated case is checked against them, and no proof has to dig them out of the run):
+   consistent axes and a topological order (Pipeline construction), every array of a MapSpec is an input
+   or an output, the denotation names exactly the outputs, actual rank = declared rank, outputs without
+   MapSpec are not indexed by any MapSpec, names contain no ':', loaded intermediate coordinates have
+   distinct values. *)
+Definition valid_req (q : req) : bool :=
+  request_ok (q_funcs q) (q_inputs q)
+  && match denote_run sym_body (q_funcs q) (q_inputs q) (q_internal q) with
+     | Err _ => false
+     | Ok den =>
+         list_eqb str_eqb (map fst (d_out den)) (all_outputs q)
+         && forallb (fun kv => match snd kv with VA arr => nd_wf arr | VS _ => true end) (d_out den)
+         && forallb (fun a => match value_in q den (aname a) with
+                              | Some (VA arr) => length (shp arr) =? rank a
+                              | _ => false end) (all_aspecs (specs_of q))
+         && forallb (fun kv => match snd kv with
+                               | VA arr => negb (length (shp arr) =? 1)
+                                           || match computed_by (specs_of q) (fst kv) with Some _ => true | None => false end
+                                           || nodup_str (dat arr)
+                               | VS _ => true end) (d_out den)
+     end
+  && consistent (all_aspecs (specs_of q))
+  && topo_specs (specs_of q)
+  && forallb (fun f => match fspec f with
+                       | None => forallb (fun o => negb (mem_str o (map aname (all_aspecs (specs_of q))))) (fouts f)
+                       | Some _ => true end) (q_funcs q)
+  && forallb (fun n => negb (mem_char ":"%char n)) (all_outputs q ++ input_names q)
+  && forallb (fun kv => match snd kv with VA a => nodup_str (dat a) | VS _ => true end) (q_inputs q)
+  && (q_kind q <? 2).
+
 Definition valid (c : case) : bool :=
-  request_ok (c_funcs c) (c_inputs c)
-  && is_ok (denote_run sym_body (c_funcs c) (c_inputs c) (c_internal c))
-  && consistent (all_aspecs (specs_of c))
-  && forallb (fun kv => match snd kv with VA a => nodup_str (dat a) | VS _ => true end) (c_inputs c)
-  && (c_kind c <? 2).
+  match resolve c with Ok q => valid_req q | Err _ => false end.
 
 (* ---------- the model's observation ---------- *)
 Definition val_eqb (a b : val) : bool := sx_eqb (sx_val a) (sx_val b).
@@ -107,76 +206,92 @@ Definition val_eqb (a b : val) : bool := sx_eqb (sx_val a) (sx_val b).
    - xr.merge aligns its arguments: a dimension name with two different sizes raises AlignmentError;
    - `ds[name] = array` for a bare ndarray: rank 0 is a dimensionless variable, rank 1 becomes an index
      coordinate on a new dimension called `name`, rank >= 2 raises MissingDimensionsError. *)
-Definition sizes_conflict (l : list (str * nat)) : bool :=
-  existsb (fun p => existsb (fun q => str_eqb (fst p) (fst q) && negb (snd p =? snd q)) l) l.
+Definition outv_of (ro : list (str * val * val)) (n : str) : option val :=
+  option_map (fun x => snd (fst x)) (find (fun x => str_eqb (fst (fst x)) n) ro).
+
+Definition plain_rank (outv : str -> option val) (n : str) : nat :=
+  match outv n with Some (VA a) => length (shp a) | _ => 0 end.
+
+Definition merged_sizes (outv : str -> option val) (labelled : list (str * list str)) : list (str * nat) :=
+  flat_map (fun v => match outv (fst v) with
+                     | Some (VA a) => combine (snd v) (shp a)
+                     | _ => [] end) labelled.
+
+Definition ds_obs (q : req) (outv : str -> option val) (same : bool) (ds : dataset) : result dsobs :=
+  let labelled := map (fun a => (da_name a, da_dims a)) (ds_arrays ds) in
+  if sizes_conflict (merged_sizes outv labelled) then Err OtherError else
+  if existsb (fun n => 1 <? plain_rank outv n) (ds_plain ds) then Err OtherError else
+  let vars := labelled ++ map (fun n => (n, [])) (filter (fun n => plain_rank outv n =? 0) (ds_plain ds)) in
+  let cs := ds_coords ds
+            ++ map (fun n => {| co_name := n; co_axes := [n]; co_srcs := [n] |})
+                   (filter (fun n => plain_rank outv n =? 1) (ds_plain ds)) in
+  do vs <- mapM (fun v => match outv (fst v) with
+                          | Some x => Ok (fst v, (snd v, sx_val x))
+                          | None => Err KeyError end) (sort_by_name fst vars);
+  do cos <- mapM (render_coord q outv) (sort_by_name co_name cs);
+  do sels <- render_sels q outv vars cs;
+  Ok {| o_same := same;
+        o_vars := if q_kind q =? 0 then vs else [];
+        o_coords := if q_kind q =? 0 then cos else [];
+        o_sels := sels |}.
+
+Definition model_obs (q : req) : result dsobs :=
+  do st <- map_run sym_body (q_funcs q) (q_inputs q) (q_internal q);
+  do ds <- dataset_vars (specs_of q) (input_names q) (output_names q) (q_li q);
+  ds_obs q (outv_of (r_out st)) (forallb (fun x => val_eqb (snd (fst x)) (snd x)) (r_out st)) ds.
+
+(* ---------- the regions of the known findings (decided on the request and its denotation) ---------- *)
+(* some index name is used with two sizes (C19-axis-name-reused-with-different-sizes) *)
+Definition region_conflict (q : req) : bool :=
+  match denote_run sym_body (q_funcs q) (q_inputs q) (q_internal q) with
+  | Ok den => sizes_conflict (axis_sizes q den)
+  | Err _ => false
+  end.
+(* some output without MapSpec is an array of rank >= 2 (C19-unmapped-array-output-not-storable) *)
+Definition region_plain (q : req) : bool :=
+  match denote_run sym_body (q_funcs q) (q_inputs q) (q_internal q) with
+  | Ok den => existsb (fun f => match fspec f with
+                                | None => existsb (fun o => match dict_get (d_out den) o with
+                                                            | Some (VA a) => 1 <? length (shp a)
+                                                            | _ => false end) (fouts f)
+                                | Some _ => false end) (q_funcs q)
+  | Err _ => false
+  end.
+(* selection by the value of a zipped coordinate (C19-zipped-coordinate-not-selectable): a kind 1 case in
+   which some data variable carries a zipped (multi-source) coordinate, i.e. a selection is attempted *)
+Definition region_zsel (q : req) : bool :=
+  if q_kind q =? 0 then false
+  else match model_obs q with Ok d => negb (is_nil (o_sels d)) | Err _ => false end.
+Definition region_req (q : req) : bool := region_conflict q || region_plain q || region_zsel q.
+
+
+(* the second element of an "ok" observation: [the request is valid; it lies in a known-finding region]
+   (the harness sends [true; "this observation is classified as a known finding"], so both the validity of
+   every generated request and the coincidence of the regions with the harness' classification are part of
+   the correspondence) *)
+Definition run_req (q : req) : sx :=
+  match model_obs q with
+  | Ok d => render (SL [SB (valid_req q); SB (region_req q)]) d
+  | Err e => SErr e
+  end.
 
 Definition run (c : case) : sx :=
-  match map_run sym_body (c_funcs c) (c_inputs c) (c_internal c) with
+  match resolve c with
+  | Ok q => run_req q
   | Err e => SErr e
-  | Ok st =>
-      let outv n := option_map (fun x => snd (fst x))
-                      (find (fun x => str_eqb (fst (fst x)) n) (r_out st)) in
-      let same := forallb (fun x => val_eqb (snd (fst x)) (snd x)) (r_out st) in
-      match dataset_vars (specs_of c) (input_names c) (output_names c) (c_li c) with
-      | Err e => SErr e
-      | Ok ds =>
-          let labelled := map (fun a => (da_name a, da_dims a)) (ds_arrays ds) in
-          if sizes_conflict (flat_map (fun v => match outv (fst v) with
-                                                | Some (VA a) => combine (snd v) (shp a)
-                                                | _ => [] end) labelled)
-          then SErr OtherError else
-          let plain_rank n := match outv n with Some (VA a) => length (shp a) | _ => 0 end in
-          if existsb (fun n => 1 <? plain_rank n) (ds_plain ds) then SErr OtherError else
-          let vars := labelled ++ map (fun n => (n, [])) (filter (fun n => plain_rank n =? 0) (ds_plain ds)) in
-          let cs := ds_coords ds
-                    ++ map (fun n => {| co_name := n; co_axes := [n]; co_srcs := [n] |})
-                           (filter (fun n => plain_rank n =? 1) (ds_plain ds)) in
-          match mapM (fun v => match outv (fst v) with
-                               | Some x => Ok (SL [SS (fst v); SL (map SS (snd v)); sx_val x])
-                               | None => Err KeyError end) (sort_by_name fst vars),
-                mapM (render_coord c outv) (sort_by_name co_name cs),
-                render_sels c outv vars cs with
-          | Ok vs, Ok cos, Ok sels =>
-              SL [SS (s "ok"); SB (valid c); SB same; SB same;
-                  SL (if c_kind c =? 0 then vs else []); SL (if c_kind c =? 0 then cos else []); SL sels]
-          | Err e, _, _ => SErr e
-          | _, Err e, _ => SErr e
-          | _, _, Err e => SErr e
-          end
-      end
   end.
 
 (* ---------- the executable statement ---------- *)
-Fixpoint omapM {A B} (f : A -> option B) (l : list A) : option (list B) :=
-  match l with
-  | [] => Some []
-  | x :: t => match f x, omapM f t with Some y, Some ys => Some (y :: ys) | _, _ => None end
-  end.
-Definition sx_str (x : sx) : option str := match x with SS t => Some t | _ => None end.
-Definition sx_strs (x : sx) : option (list str) := match x with SL l => omapM sx_str l | _ => None end.
-(* [name; dims; value] *)
-Definition parse_entry (x : sx) : option (str * (list str * sx)) :=
-  match x with
-  | SL [SS n; d; v] => option_map (fun ds => (n, (ds, v))) (sx_strs d)
-  | _ => None
-  end.
-(* [var; coord; outcomes] *)
-Definition parse_sel (x : sx) : option (str * str * list sx) :=
-  match x with
-  | SL [SS v; SS cn; SL l] => Some (v, cn, l)
-  | _ => None
-  end.
-
 Definition all_true (l : list sx) : bool := forallb (fun x => sx_eqb x (SB true)) l.
 Definition strs_eqb := list_eqb str_eqb.
 
 Section Spec.
-  Variable c : case.
+  Variable q : req.
   Variable den : den_state.                        (* the denotation of the request (C01) *)
-  Variable vars coords : list (str * (list str * sx)).
-  Variable sels : list (str * str * list sx).
+  Variable vars coords : list entry.
+  Variable sels : list selent.
 
-  Let specs := specs_of c.
+  Let specs := specs_of q.
   Let fuel := S (length specs).
 
   (* "each MapSpec output is a variable whose dimensions are its MapSpec axes in order and whose values
@@ -205,7 +320,7 @@ Section Spec.
 
   (* one-dimensional arrays: a root input by its actual shape, any other array by its declared rank *)
   Definition one_dim (n : str) : bool :=
-    match dict_get (c_inputs c) n with
+    match dict_get (q_inputs q) n with
     | Some (VA a) => length (shp a) =? 1
     | Some (VS _) => false
     | None => match find (fun a => str_eqb (aname a) n) (all_aspecs specs) with
@@ -214,7 +329,7 @@ Section Spec.
     end.
 
   Definition value_of (n : str) : result val :=
-    match dict_get (c_inputs c) n with
+    match dict_get (q_inputs q) n with
     | Some v => Ok v
     | None => match dict_get (d_out den) n with Some v => Ok v | None => Err KeyError end
     end.
@@ -224,9 +339,9 @@ Section Spec.
   (* "each one-dimensional root input mapped along an axis appears as a coordinate on exactly that axis
      with the input's values (zipped inputs combined into one multi-index)" *)
   Definition roots_of (o k : str) : list str :=
-    dedup (filter (fun n => one_dim n && mem_str n (input_names c)) (carried fuel specs o k)).
+    dedup (filter (fun n => one_dim n && mem_str n (input_names q)) (carried fuel specs o k)).
   Definition allowed_of (o k : str) : list str :=
-    dedup (filter (fun n => one_dim n && (mem_str n (input_names c) || c_li c)) (carried fuel specs o k)).
+    dedup (filter (fun n => one_dim n && (mem_str n (input_names q) || q_li q)) (carried fuel specs o k)).
 
   Definition axis_ok (o k : str) : bool :=
     let roots := roots_of o k in
@@ -250,7 +365,7 @@ Section Spec.
     | Some _ =>
         let roots := roots_of o k in
         if is_nil roots then true
-        else if c_kind c =? 0 then
+        else if q_kind q =? 0 then
           match allowed_of o k with
           | [x] => existsb (fun e => str_eqb (fst (fst e)) o && str_eqb (snd (fst e)) x) sels
           | _ => true
@@ -266,29 +381,41 @@ Section Spec.
     flat_map (fun f => match fspec f with
                        | Some ms => if is_nil (ins ms) then []
                                     else map (fun a => (aname a, indices a)) (outs ms)
-                       | None => [] end) (c_funcs c).
+                       | None => [] end) (q_funcs q).
 
   Definition spec_body : bool :=
     forallb (fun e => all_true (snd e)) sels
-    && if c_kind c =? 0 then
-         forallb (fun f => forallb (output_ok f) (fouts f)) (c_funcs c)
+    && if q_kind q =? 0 then
+         forallb (fun f => forallb (output_ok f) (fouts f)) (q_funcs q)
          && forallb (fun oa => forallb (fun k => axis_ok (fst oa) k && sel_ok (fst oa) k) (snd oa)) mapped_outputs
        else
          forallb (fun oa => forallb (zsel_ok (fst oa)) (snd oa)) mapped_outputs.
 End Spec.
 
-Definition spec_ok (c : case) (o : sx) : bool :=
-  if negb (valid c) then true else
-  match denote_run sym_body (c_funcs c) (c_inputs c) (c_internal c) with
+Definition spec_req (q : req) (o : sx) : bool :=
+  if negb (valid_req q) then true else
+  match denote_run sym_body (q_funcs q) (q_inputs q) (q_internal q) with
   | Err _ => true
   | Ok den =>
       match o with
       | SL [SS t; _; ident; same; SL vs; SL cs; SL ss] =>
           str_eqb t (s "ok") && sx_eqb ident (SB true) && sx_eqb same (SB true)
           && match omapM parse_entry vs, omapM parse_entry cs, omapM parse_sel ss with
-             | Some vars, Some coords, Some sels => spec_body c den vars coords sels
+             | Some vars, Some coords, Some sels => spec_body q den vars coords sels
              | _, _, _ => false
              end
       | _ => false
       end
+  end.
+
+Definition spec_ok (c : case) (o : sx) : bool :=
+  match resolve c with
+  | Ok q => spec_req q o
+  | Err _ => true
+  end.
+
+Definition known_region (c : case) : bool :=
+  match resolve c with
+  | Ok q => region_req q
+  | Err _ => false
   end.
